@@ -29,6 +29,7 @@ type Options struct {
 	Deadline      time.Time
 	StopOnViolation bool
 	ForkSites       bool
+	BudgetIsViolation bool // exceeding the per-path instruction / depth budget is a finding (hang, unbounded recursion)
 	Params          map[string]int
 	Seed            int
 }
@@ -110,6 +111,7 @@ func (m *Machine) RunPath(entry *ssa.Function, item WorkItem, solver *sym.Solver
 	m.MapDeviationBudget = 0
 	m.mapRotations = 0
 	m.resetSched()
+	m.raceReset(false)
 	solver.Reset()
 	p := &Path{Ctx: sym.NewCtx(), Solver: solver, Prefix: item.Prefix, Covers: map[string]bool{}, Known: map[string]bool{},
 		Notes: map[string]int64{}, MaxDecisions: opt.MaxDecisions, Fallback: m.fallback,
@@ -310,8 +312,16 @@ func Explore(P *Program, entry *ssa.Function, opt Options) *Summary {
 					stop = true
 				}
 			}
+			if res.Status == PathBudget && opt.BudgetIsViolation {
+				if len(sum.PanicPaths) < 20 {
+					sum.PanicPaths = append(sum.PanicPaths, *res)
+				}
+			}
 			switch res.Status {
 			case PathUnsupported, PathUnknown, PathBudget:
+				if res.Status == PathBudget && opt.BudgetIsViolation {
+					break
+				}
 				d := res.Detail
 				if len(d) > 2000 {
 					d = d[:2000]
